@@ -80,7 +80,8 @@ impl Report {
     match ev {
       Event::Done(_j, o) => self.out.merge(o),
       Event::Crash(j, u, kind) => {
-        let (locus, case) = match &self.describe { Some(d) => d(&j.payload, u), None => ("unit".to_string(), format!("payload={} unit={}", j.payload, u)) };
+        let (mut locus, mut case) = match &self.describe { Some(d) => d(&j.payload, u), None => ("unit".to_string(), format!("payload={} unit={}", j.payload, u)) };
+        if let CrashKind::HangOn(what) = &kind { case = what.clone(); locus = format!("{}", locus); }
         let key = format!("{}|{}|{}", self.id, kind.class(), locus);
         self.out.failures.push(Failure { key, case, detail: format!("worker {:?} while running this unit alone (confirmed twice)", kind), payload: j.payload.clone(), unit: u });
         self.out.evaluations += 1;
